@@ -270,6 +270,7 @@ class JobServerSemaphore:
             while self.__waitersCnt:
                 self.__tokens.append(os.read(self.__fds[0], 1))
                 self.__waitersCnt -= 1
+                self.__acquired += 1
                 self.__sem.release()
         except BlockingIOError:
             pass
@@ -289,7 +290,8 @@ class JobServerSemaphore:
                     JobServerSemaphore.jobavailableCallback, self)
             self.__waitersCnt += 1
             await self.__sem.acquire()
-            pass
+            # The slot was already accounted for by whoever woke us up.
+            return
         self.__acquired += 1
 
     async def __aenter__(self):
@@ -304,6 +306,8 @@ class JobServerSemaphore:
            self.__sem.release()
            if self.__waitersCnt == 0:
                asyncio.get_event_loop().remove_reader(self.__fds[0])
+           # The slot is handed over directly to the waiter and stays acquired.
+           return
         else:
             if not self.__recursive or self.__acquired > 1:
                 os.write(self.__fds[1], self.__tokens.pop())
